@@ -1178,7 +1178,9 @@ impl Server {
         // Execute commands
         let mut results = Vec::new();
         for cmd_parts in commands_to_execute.iter() {
-            match self.process_command_parts(&cmd_parts, db_index) {
+            // A queued SELECT changes the database for the commands that follow it
+            let db = self.connections.with_connection(conn_id, |conn| conn.db_index).unwrap_or(db_index);
+            match self.process_command_parts(&cmd_parts, db, conn_id) {
                 Ok(response) => results.push(response),
                 Err(e) => {
                     results.push(RespFrame::error(e.to_string()));
@@ -1190,10 +1192,9 @@ impl Server {
     }
     
     /// Helper method to process a Vec<RespFrame> in a transaction
-    fn process_command_parts(&mut self, parts: &Vec<RespFrame>, db: usize) -> Result<RespFrame> {
-        // For transaction processing, use a dummy connection ID of 0 for SLOWLOG
-        // since we don't have the original connection context here
-        self.process_normal_command(parts, db, 0)
+    fn process_command_parts(&mut self, parts: &Vec<RespFrame>, db: usize, conn_id: u64) -> Result<RespFrame> {
+        // Queued commands act on behalf of the connection that sent EXEC
+        self.process_normal_command(parts, db, conn_id)
     }
 
     /// Process a normal (non-transaction) command
